@@ -197,6 +197,8 @@ func (i *interpreter) resetPath() {
 	i.inited = map[*ssa.Package]bool{}
 	i.pools = map[*value][]value{}
 	i.regexes = map[*value]*regexHandle{}
+	i.protoSeq = 0
+	i.protoMsgs = map[string]iface{}
 	i.depth = 0
 	i.chanSeq = 0
 	i.nowHook = nil
